@@ -83,6 +83,25 @@ def recurseListF (dim : Nat) (key : Nat → Nat → Int) (ws : Array Nat) : List
       | some hs => some (h :: hs)
 end
 
+/-- `(num_parts as f32).powf(1. / max_iter as f32).ceil() as usize` with Lean's `Float32`
+(C `float`, `powf` of the same libm as Rust's `f32::powf`; `as usize` saturates, NaN ↦ 0). -/
+def froot (n m : Nat) : Nat :=
+  ((Float32.ofNat n).pow (1.0 / Float32.ofNat m)).ceil.toUSize.toNat
+
+/-- The hypotheses `RootOk` of the scheme theorems, checked at every `(num_parts, max_iter)`
+pair the scheme computation visits. -/
+def rootOkAt (n m : Nat) : Bool :=
+  let r := froot n m
+  decide (1 ≤ r) && (m == 0 || (decide (r ≤ n) && (n < 2 || decide (2 ≤ r)))) &&
+    (m != 1 || r == n) && (!(m == 0 && n == 1) || r == 1)
+
+def rootOkRec (n : Nat) : Nat → Bool
+  | 0 => n == 1 && rootOkAt n 0
+  | m + 1 =>
+    decide (1 ≤ n) && rootOkAt n (m + 1) &&
+      (let r := froot n (m + 1)
+       (n % r == 0 || rootOkRec (n / r + 1) m) && rootOkRec (n / r) m)
+
 def bitsOfRatio (a den : Nat) : Nat := (Float.ofNat a / Float.ofNat den).toBits.toNat
 
 mutual
@@ -121,9 +140,10 @@ def handleMj (dim parts maxIter n : Nat) (ws : List Nat) (coords : List Int) : S
   let uniform := match ws with
     | [] => true
     | w :: rest => rest.all (· == w)
-  match scheme iroot parts maxIter with
+  match scheme froot parts maxIter with
   | none => if parts = 0 then "panic divisor of zero" else "panic"
   | some s =>
+    if !rootOkRec parts maxIter then "root-hypothesis-violated" else
     let perm := List.range n
     match recurse {} isort (chunkBy 3) dim key ws s 0 perm,
           recurse {} isort (chunkBy 0) dim key ws s 0 perm,
@@ -204,9 +224,10 @@ def handle (toks : List String) : String :=
   | ["scheme", parts, mi] =>
     match parseNat? parts, parseNat? mi with
     | some parts, some mi =>
-      match scheme iroot parts mi with
+      match scheme froot parts mi with
       | none => if parts = 0 then "panic divisor of zero" else "panic"
-      | some s => "ok " ++ showScheme s
+      | some s =>
+        if !rootOkRec parts mi then "root-hypothesis-violated" else "ok " ++ showScheme s
     | _, _ => "bad-op"
   | "splitmany" :: len :: k :: rest =>
     match (do
